@@ -3,7 +3,7 @@ import itertools
 import threading
 from concurrent.futures import Executor, Future, ThreadPoolExecutor, ProcessPoolExecutor
 
-from core import nats, natlists, exc_kind
+from core import nats, natlists, exc_kind, safe_check
 import dbutil
 
 PROPS = ('GambitV.Props.C13', 'GambitV.C13')
@@ -169,7 +169,7 @@ def run(ctx):
 	rng = ctx.rng
 
 	def sub(case, tag):
-		lines, pf = check(ctx, case)
+		lines, pf = safe_check(check, ctx, case)
 		nt = case.pop('_nt', False)
 		ctx.submit(case, lines, nontrivial=nt, tags=[tag, f'mode={case["mode"]}', f'n={len(case["files"])}'], pyfails=pf)
 
